@@ -119,6 +119,7 @@ pub fn tables<F: BoolExt>(args: &Args) {
     let zvar = load_table(&tdir, "zvar");
 
     let mut rows: u64 = 0;
+    let mut sessions = 0;
     let mut mismatches: u64 = 0;
     let mut nontrivial: u64 = 0;
     let threads_opts: Vec<u32> = if thorough { vec![1, 4] } else { vec![1] };
@@ -132,7 +133,10 @@ pub fn tables<F: BoolExt>(args: &Args) {
                 if reorder_after && !F::REORDER_LIVE_OK {
                     continue;
                 }
-                let cache = [1usize, 2, 16, 4096][rng.below(4)];
+                // the first session always has a large cache (entries survive),
+                // the others a random capacity
+                let cache = if sessions == 0 { 4096 } else { [1usize, 2, 16, 4096][rng.below(4)] };
+                sessions += 1;
                 let mut s: Session<F> = Session::new(&mut out, 8192, cache, threads);
                 s.add_vars(3);
                 let ord = &orders[osel];
@@ -310,9 +314,11 @@ pub fn tables<F: BoolExt>(args: &Args) {
                             }
                         }
                     }
+                    // the same operation on the same operand with every
+                    // variable back to back (the variable is part of the cache key)
                     for op in ["subset0", "subset1", "change"] {
-                        for v in 0..3usize {
-                            for f in 0..256usize {
+                        for f in 0..256usize {
+                            for v in 0..3usize {
                                 let exp = zvar[op][v][f].as_u64().unwrap() as usize;
                                 row!(op, &[h[f]], json!({ "v": v }), exp, s
                                     .get(h[f])
@@ -398,6 +404,9 @@ pub fn hist<F: BoolExt>(args: &Args) {
     let count = args.num("count", 50);
     let nmax = args.num("nmax", 6) as u32;
     let steps_max = args.num("steps", 40) as usize;
+    // stress mode (C06): few operands, every operator on the same operands
+    // again and again with varying numeric arguments, results mostly dropped
+    let stress = args.has("stress");
     let mut out = TraceOut::new(&dir, &format!("hist-{}", F::KIND), args.num("chunk", 1500) as usize);
     let mut rng = Rng::new(seed ^ 0x5151);
     let mut ops_done = 0u64;
@@ -431,8 +440,27 @@ pub fn hist<F: BoolExt>(args: &Args) {
                 s.snap();
                 continue;
             }
-            let pick = |rng: &mut Rng, live: &[Slot]| live[rng.below(live.len())];
-            let c = rng.below(100);
+            let pick = |rng: &mut Rng, live: &[Slot]| {
+                if stress {
+                    // a small window of operands
+                    live[rng.below(live.len().min(5))]
+                } else {
+                    live[rng.below(live.len())]
+                }
+            };
+            let c = if stress && live.len() >= 5 { 12 + rng.below(66) } else { rng.below(100) };
+            if stress && live.len() > 9 {
+                // keep the pool small: drop the newest results
+                for &x in live.iter().skip(5) {
+                    s.drop_h(x);
+                }
+                if rng.chance(1, 4) {
+                    s.snap();
+                    s.gc();
+                    s.snap();
+                }
+                continue;
+            }
             ops_done += 1;
             if live.len() < 2 || c < 12 {
                 let v = rng.below(s.n as usize) as u32;
@@ -1011,9 +1039,13 @@ pub fn reorder<F: BoolExt>(args: &Args) {
         post_reorder_activity(&mut s, &mut rng, 4);
     }
     let chains = if thorough { 300 } else { 40 };
-    for _ in 0..chains {
+    for chain in 0..chains {
         let n = 5 + rng.below(if thorough { 4 } else { 2 }) as u32;
-        let mut s: Session<F> = Session::new(&mut out, 8192, 256, [1u32, 2, 8][rng.below(3)]);
+        let threads = [1u32, 2, 8][rng.below(3)];
+        // every other chain uses the concurrent bubble sort (hook: the node
+        // threshold of set_var_order is overridden)
+        oxidd_reorder::verif::FORCE_CONCURRENT.store(chain % 2 == 1, std::sync::atomic::Ordering::Relaxed);
+        let mut s: Session<F> = Session::new(&mut out, 8192, 256, if chain % 2 == 1 { threads.max(2) } else { threads });
         s.add_vars(n);
         random_funcs(&mut s, &mut rng, 12);
         let len = 2 + rng.below(4);
@@ -1029,6 +1061,29 @@ pub fn reorder<F: BoolExt>(args: &Args) {
             post_reorder_activity(&mut s, &mut rng, 3);
         }
     }
+    // concurrent sort on larger diagrams (swaps take time, several workers overlap)
+    for _ in 0..(if thorough { 40 } else { 6 }) {
+        let n = 9 + rng.below(3) as u32;
+        oxidd_reorder::verif::FORCE_CONCURRENT.store(true, std::sync::atomic::Ordering::Relaxed);
+        let mut s: Session<F> = Session::new(&mut out, 1 << 16, 1024, [2u32, 4, 8][rng.below(3)]);
+        s.add_vars(n);
+        random_funcs(&mut s, &mut rng, 30);
+        for x in s.live().into_iter().take(n as usize) {
+            s.drop_h(x); // the plain variables
+        }
+        let mut p: Vec<u32> = (0..n).rev().collect();
+        if rng.chance(1, 2) {
+            p = rng.perm(n as usize);
+        }
+        s.reorder(&p);
+        cases += 1;
+        // no semantic snapshot here (n > 8 is too large for TLC's sets); the
+        // swap events and the resulting order are validated
+        let p2 = rng.perm(n as usize);
+        s.reorder(&p2);
+        cases += 1;
+    }
+    oxidd_reorder::verif::FORCE_CONCURRENT.store(false, std::sync::atomic::Ordering::Relaxed);
     out.finish();
     write_summary(&dir, &format!("reorder-{}", F::KIND), &out, json!({"rows":cases,"nontrivial":cases}));
 }
